@@ -377,7 +377,45 @@ def _near_master():
             h + m + v + '#EXT-X-I-FRAME-STREAM-INF:BANDWIDTH=1,URI="u"\n', h + m + v + "#EXT-X-FOO\n", h + m, h + v.replace(',AUDIO="g"', ""), h]
 
 
+def _near_built_media():
+    hx = lambda t: t.encode().hex()
+    seg = lambda uri, extra="": "dur=1000000000 uri=%s%s" % (hx(uri), extra)
+    td = "td 10000000000"
+    key = " key=aes:%s:-:-:-" % hx("k")
+    keyiv = " key=aes:%s:%s:-:-" % (hx("k"), "0" * 31 + "1")
+    return ["\n".join(x) for x in [
+        [td, "push " + seg("a"), "push " + seg("b")],
+        [td, "push " + seg("a"), "push " + seg("b", " num=1")],
+        [td, "push " + seg("a", " num=0"), "push " + seg("b")],
+        [td, "push " + seg("a", " num=0"), "push " + seg("b", " num=1")],
+        [td, "push " + seg("b", " num=1"), "push " + seg("a", " num=0")],
+        [td, "segs " + seg("a") + " | " + seg("b")],
+        [td, "ms 0", "push " + seg("a"), "push " + seg("b")],
+        [td, "ms 5", "push " + seg("a"), "push " + seg("b")],
+        [td, "ms 5", "push " + seg("a", " num=5"), "push " + seg("b", " num=6")],
+        [td, "ms 5", "push " + seg("a"), "push " + seg("b", " num=6")],
+        [td, "push " + seg("a")],
+        [td, "push " + seg("a", " num=0")],
+        [td, "push " + seg("a", key)],
+        [td, "push " + seg("a", key + " num=0")],
+        [td, "push " + seg("a", keyiv)],
+        [td, "push " + seg("a", " key=none")],
+        [td, "push " + seg("a", " disc=1")],
+        [td, "push " + seg("a", " title=" + hx("t"))],
+        [td, "push " + seg("a", " br=5@0")],
+        [td, "push " + seg("a", " br=5@0"), "push " + seg("a", " br=5")],
+        [td, "push " + seg("a", " br=5@0"), "push " + seg("a", " br=5@5")],
+        [td, "push " + seg("a", " map=" + hx("i"))],
+        [td, "push " + seg("a", " map=" + hx("i") + ":5@0")],
+        [td, "end 1", "push " + seg("a")], [td, "end 0", "push " + seg("a")], [td, "ifo 1", "push " + seg("a")], [td, "ifo 0", "push " + seg("a")],
+        [td, "ind 1", "push " + seg("a")], [td, "ds 0", "push " + seg("a")], [td, "ds 1", "push " + seg("a")], [td, "pt VOD", "push " + seg("a")],
+        [td, "unk " + hx("#EXT-X-FOO"), "push " + seg("a")], [td, "unk", "push " + seg("a")], [td, "ex 0", "push " + seg("a")],
+        [td, "ex 1000000000", "push " + seg("a")], ["td 11000000000", "push " + seg("a")],
+    ]]
+
+
 NEAR_MEDIA = _near_media()
+NEAR_BUILT_MEDIA = _near_built_media()
 NEAR_MASTER = _near_master()
 
 
@@ -429,10 +467,16 @@ def c19_build(ctx):
         cases.append(mk("cmp:media", a, C.hx(b), group="near:media", meta={"a": a, "b": b}))
     for a, b in itertools.product(NEAR_MASTER, repeat=2):
         cases.append(mk("cmp:master", a, C.hx(b), group="near:master", meta={"a": a, "b": b}))
+    # values only the builders reach: explicit segment numbers (equal to / different from the implicit ones), setters
+    # called with the default value, the two ways of handing over segments
+    for a, b in itertools.product(NEAR_BUILT_MEDIA, repeat=2):
+        cases.append(mk("cmp_build_media", a, C.hx(b), group="near:built-media", meta={"a": a, "b": b}))
     return cases
 
 
 def c19_gate(case):
+    if case.op == "cmp_build_media":
+        return {"status", "obs", "extra", "E", "X"}        # the model's = is structural; it has no order / hash of playlists
     return {"status", "obs", "extra", "E", "C", "H"}
 
 
@@ -440,14 +484,30 @@ def c19_oracle(ctx, cases, impl, model):
     """the six laws on the implementation's own answers, per group, over all pairs and triples"""
     fails = []
     by_group = {}
+    def segments_of(o):
+        """the segment list inside the observation of a media playlist (its last field)"""
+        depth = 0
+        for i in range(len(o) - 2, -1, -1):
+            if o[i] == "]": depth += 1
+            elif o[i] == "[":
+                depth -= 1
+                if depth == 0:
+                    return o[i:-1]
+        return o
     for c, a in zip(cases, impl):
-        by_group.setdefault(c.group, []).append((c, a))
+        by_group.setdefault(c.group, []).append((c, a, False))
+        if c.op == "cmp_build_media":     # the same pairs once more, as lists of segments (X/Y/Z = their ==, cmp, hash)
+            by_group.setdefault(c.group + ":segments", []).append((c, a, True))
     SW = {"lt": "gt", "gt": "lt", "eq": "eq", "-": "-"}
     for g, items in by_group.items():
         M = {}
         obs = {}
-        for c, a in items:
+        for c, a, as_segments in items:
             r = C.Resp(a)
+            if as_segments and r.status == "ok":
+                r.fields["E"], r.fields["C"], r.fields["H"] = r.get("X"), r.get("Y"), r.get("Z")
+                r.obs = segments_of(r.obs)
+                r.extra = [segments_of(x) for x in r.extra[:1]]
             ka = c.meta.get("a", c.payload)
             kb = c.meta.get("b") if "b" in c.meta else C.unhx(c.line.split("\t")[2])
             if r.status == "panic":
@@ -701,6 +761,40 @@ def c13_build(ctx):
     # larger generated masters, consistent and not
     for i in range(ctx.n(600, 6000)):
         cases.append(mk("master", G.gen_master(rng, features=ctx.features, consistent=(i % 2 == 0))[0], group="generated"))
+    # "the same rule decides builder success": the configurations above through MasterPlaylistBuilder, every list setter either
+    # called with its items, called with an empty list, or not called at all
+    def script_of(cfg, unset):
+        text = c13_render(rng, dict(cfg, order=None))
+        lines = [l for l in text.split("\n") if l][1:]
+        groups = {"media": [], "variants": [], "sdata": []}
+        k = 0
+        while k < len(lines):
+            l = lines[k]
+            if l.startswith("#EXT-X-STREAM-INF:"):
+                groups["variants"].append(l + "\n" + lines[k + 1]); k += 2; continue
+            groups["media" if l.startswith("#EXT-X-MEDIA:") else "variants" if l.startswith("#EXT-X-I-FRAME") else "sdata"].append(l)
+            k += 1
+        calls = []
+        for name, v in groups.items():
+            if v:
+                calls.append(name + " " + " ".join(C.hx(x) for x in v))
+            elif name not in unset:
+                calls.append(name)
+        rng.shuffle(calls)
+        return "\n".join(calls) if calls else "ind 0"
+    small = []
+    for trip in itertools.product(sdv, repeat=2):
+        small.append({"media": [], "variants": [], "sd": list(trip)})
+        small.append({"media": [("AUDIO", "g1")], "variants": [{"audio": "g1", "video": None, "subs": None, "cc": None}], "sd": list(trip)})
+        small.append({"media": [("AUDIO", "g1")], "variants": [], "sd": list(trip)})
+    for mask in range(16):
+        media = [base[i] for i in range(4) if mask >> i & 1]
+        for a1, v1, s1, c1 in itertools.product([None, "g1"], [None, "g1"], [None, "g1"], [None, "g1", "NONE"]):
+            small.append({"media": media, "variants": [{"audio": a1, "video": v1, "subs": s1, "cc": c1}, {"audio": None, "cc": rng.choice([None, "g1", "NONE"])}], "sd": []})
+            small.append({"media": media, "variants": [{"iframe": True, "video": v1}], "sd": []})
+    for cfg in small:
+        for unset in ((), ("media", "variants", "sdata")):
+            cases.append(mk("build_master", script_of(cfg, unset), group="builder", meta={"cfg": cfg, "built": True}))
     return cases
 
 
@@ -749,7 +843,7 @@ PROPS["C13"] = {
     "rule": "exhaustive reduced scope (every subset of 4 renditions x every {absent,g1[,NONE]} assignment of variant 1, {absent,g1,g2,NONE}x{absent,g2} of variant 2, i-frame video {absent,g1}, both tag orders), all triples of session data over 2 ids x 3 languages, random configurations over the full scope of the property (4 types x 2 ids, <= 2 variants + i-frame, shuffled tags, a group literally named NONE), generated larger masters (consistent and inconsistent); non-trivial = configuration with at least one variant or session-data tag (distinct texts)",
     "exhaustive": False,
     "explanation": "theorems: validateVariants_iff, validateSessionData_iff, build_ok_iff, parseMaster_consistent, assembleMaster_ok_iff, associatedWith_iff, isAssociated_iff_partial (+ isAssociated_counterexample for K5); oracle: acceptance of every rendered configuration is compared with an independent Python statement of the rule, every accepted value is re-checked for consistency, its rendition lookup and the three stream selectors (audio_streams, video_streams, unassociated_streams) are compared with the references",
-    "assumptions": ["the builder path of the same rule (MasterPlaylistBuilder::build) is covered by the model theorem build_ok_iff; its implementation side is exercised by C20's builder scripts"],
+    "assumptions": ["the builder path of the same rule (MasterPlaylistBuilder::build): theorem build_ok_iff on the model; on the implementation the small configurations are also driven through MasterPlaylistBuilder scripts, with every list setter called with its items, with an empty list, or not at all (group 'builder')"],
 }
 
 
@@ -1296,7 +1390,9 @@ def c08_build(ctx):
             mp = None
             if rng.random() < 0.2:
                 mp = "%d@%d" % (pick(), pick()) if rng.random() < 0.7 else "%d" % pick()
-            segs.append((rng.choice(uris), rng.choice("NEEII"), pick(), pick(), mp))
+            # "the same URI" is the same string: URIs that differ in letter case, an escape, a query or a dot segment are others
+            u = rng.choice(uris) if rng.random() < 0.7 else rng.choice(["A.ts", "a.TS", "a.ts?", "./a.ts", "a%2Ets", "B.ts", "a.ts#"])
+            segs.append((u, rng.choice("NEEII"), pick(), pick(), mp))
         cases.append(mk("rt_media", c08_render(segs), group="random-values", meta={"segs": segs}))
         if rng.random() < 0.5:
             cases.append(mk("rt_media", dress_media(rng, c08_render(segs), avoid=("range", "map")), group="random-values-dressed", meta={"segs": segs}))
@@ -1305,6 +1401,12 @@ def c08_build(ctx):
             cases.append(mk("rt_media", t, group="corpus"))
     for _ in range(ctx.n(500, 5000)):
         cases.append(mk("rt_media", G.gen_media(rng, features=ctx.features)[0], group="generated"))
+    # every pair of look-alike URIs, explicit range then offset-less range, through the three entry points
+    look = ["a.ts", "A.ts", "a.TS", "a.ts?", "./a.ts", "a%2Ets", "a.ts#", "a.tsx", "a.t"]
+    for u1, u2 in itertools.product(look, repeat=2):
+        segs = [(u1, "E", 10, 100, None), (u2, "I", 20, 0, None)]
+        for op, args in (("rt_media", []), ("media_fromstr", []), ("media_builder", ["-"])):
+            cases.append(mk(op, c08_render(segs), *args, group="look-alike-uris", meta={"segs": segs}))
     return cases
 
 
@@ -1557,6 +1659,25 @@ def c15_build(ctx):
     for t in corpus_texts():
         for op in ("media", "master"):
             cases.append(mk(op, t, group="corpus-cross"))
+    # a tag of the other kind is foreign whatever stands behind its colon - well-formed, another spelling, or malformed
+    vals = ["", "x", "0", "1", "-1", "1.5", "VOD", "vod", "EVENT", "LIVE", "VOD,EVENT", "METHOD=NONE", "METHOD=FOO", 'URI="u"', "YES", "1,2", "1,t", " 1", "10@0",
+            'ID="a"', 'TYPE=AUDIO,GROUP-ID="g",NAME="n"', "BANDWIDTH=1", 'BANDWIDTH=1,URI="u"', 'DATA-ID="d",VALUE="v"', 'METHOD=AES-128,URI="k"', "TIME-OFFSET=1",
+            "2010-02-19T14:54:23.031+08:00", "\u00e9", ":", "="]
+    media_tags = ["#EXT-X-TARGETDURATION", "#EXT-X-MEDIA-SEQUENCE", "#EXT-X-DISCONTINUITY-SEQUENCE", "#EXT-X-PLAYLIST-TYPE", "#EXTINF", "#EXT-X-BYTERANGE", "#EXT-X-KEY",
+                  "#EXT-X-MAP", "#EXT-X-PROGRAM-DATE-TIME", "#EXT-X-DATERANGE"]
+    master_tags = ["#EXT-X-MEDIA", "#EXT-X-STREAM-INF", "#EXT-X-I-FRAME-STREAM-INF", "#EXT-X-SESSION-DATA", "#EXT-X-SESSION-KEY"]
+    good_master = '#EXT-X-STREAM-INF:BANDWIDTH=1\nv.m3u8\n'
+    good_media = "#EXT-X-TARGETDURATION:10\n#EXTINF:1,\ns.ts\n"
+    for tag in media_tags:
+        for v in vals:
+            line = tag + ":" + v + "\n"
+            for text in ("#EXTM3U\n" + line, "#EXTM3U\n" + good_master + line, "#EXTM3U\n" + line + good_master):
+                cases.append(mk("master", text, group="foreign-tag-any-value", meta={"foreign": "media-tag"}))
+    for tag in master_tags:
+        for v in vals:
+            line = tag + ":" + v + "\n" + ("u.m3u8\n" if tag == "#EXT-X-STREAM-INF" else "")
+            for text in ("#EXTM3U\n" + good_media + line, "#EXTM3U\n" + line + good_media):
+                cases.append(mk("media", text, group="foreign-tag-any-value", meta={"foreign": "master-tag"}))
     return cases
 
 
@@ -1568,6 +1689,8 @@ def c15_oracle(ctx, cases, impl, model):
         if st == "panic":
             fails.append(dict(describe(c.line, a), what="parser panicked", law="no-panic")); continue
         by_text.setdefault(c.line.split("\t")[1], {})[c.op] = (c, a, st)
+        if "foreign" in c.meta and st == "ok":
+            fails.append(dict(describe(c.line, a), what="%s parser accepted a text with a %s in tag position" % (c.op, c.meta["foreign"]), law=c.op + "-rejects"))
         kinds = c.meta.get("kinds")
         if kinds is None:
             continue
@@ -1977,6 +2100,20 @@ def timing_inputs(n, kind):
             "".join('#EXT-X-STREAM-INF:BANDWIDTH=%d,AUDIO="g%d"\nv%d.m3u8\n' % (i + 1, n - 1 - i, i) for i in range(n))
     elif kind == "master-session-data":
         return "#EXTM3U\n" + "".join('#EXT-X-SESSION-DATA:DATA-ID="d%d",VALUE="v"\n' % i for i in range(n * 2))
+    elif kind == "master-codecs":
+        # ONE attribute value with many entries (a list type inside a tag)
+        cod = ",".join("c%d.%d" % (i % 7, i) for i in range(n * 4))
+        return '#EXTM3U\n#EXT-X-STREAM-INF:BANDWIDTH=1,CODECS="%s"\nv.m3u8\n#EXT-X-I-FRAME-STREAM-INF:BANDWIDTH=1,CODECS="%s",URI="i.m3u8"\n' % (cod, cod)
+    elif kind == "master-long-strings":
+        L = "x\u00e9" * (n * 10)
+        return ('#EXTM3U\n#EXT-X-MEDIA:TYPE=AUDIO,URI="%s",GROUP-ID="%s",LANGUAGE="%s",ASSOC-LANGUAGE="%s",NAME="%s",CHARACTERISTICS="%s"\n'
+                '#EXT-X-SESSION-DATA:DATA-ID="%s",VALUE="%s",LANGUAGE="%s"\n#EXT-X-SESSION-KEY:METHOD=AES-128,URI="%s",KEYFORMAT="%s"\n'
+                '#EXT-X-STREAM-INF:BANDWIDTH=1,AUDIO="%s"\n%s\n#EXT-X-FOO:%s\n# %s\n') % ((L,) * 15)
+    elif kind == "long-strings":
+        L = "x\u00e9" * (n * 10)
+        body = ('#EXT-X-KEY:METHOD=AES-128,URI="%s",KEYFORMAT="%s"\n#EXT-X-MAP:URI="%s"\n#EXT-X-PROGRAM-DATE-TIME:%s\n'
+                '#EXT-X-DATERANGE:ID="%s",CLASS="%s",START-DATE="%s",SCTE35-CMD=0x%s,X-A="%s",X-B=0x%s\n#EXTINF:1,%s\n%s\n#EXT-X-FOO:%s\n# %s\n') % (
+                    L, L, L, L, L, L, L, "AB" * (n * 10), L, "AB" * (n * 10), L, L, L, L)
     else:
         body = "#EXTINF:1," + '"' * (n * 20) + "\ns.ts\n" + "# " + "=," * (n * 10) + "\n"
     return "#EXTM3U\n#EXT-X-TARGETDURATION:10\n" + body
@@ -2008,7 +2145,8 @@ def c05_timing(ctx):
     kinds = (("bounded-keys", "linear"), ("unbounded-keys", "quadratic"), ("long-attribute-list", "linear"), ("quotes-and-separators", "linear"),
              ("master-groups", "quadratic"), ("master-session-data", "linear"),
              ("byte-ranges", "linear"), ("date-ranges", "linear"), ("unknown-tags", "linear"), ("discontinuities", "linear"),
-             ("master-session-keys", "linear"), ("master-iframes", "linear"))
+             ("master-session-keys", "linear"), ("master-iframes", "linear"),
+             ("master-codecs", "linear"), ("master-long-strings", "linear"), ("long-strings", "linear"))
     limits = {"linear": 5.5, "quadratic": 24.0}          # 4x the input: 4x / 16x the work, with slack; 8x / 64x would be the next power
     startup = _instructions(C.req("time", timing_inputs(1, "bounded-keys"), "rt_media"))
 
@@ -2113,6 +2251,31 @@ def c11_texts(ctx):
         texts.append(("rt_master", G.gen_master(rng, features=ctx.features)[0]))
     for t in corpus_texts():
         texts.append(("rt_media" if "#EXTINF" in t or "TARGETDURATION" in t else "rt_master", t))
+    # several distinct items of one kind plus a verbatim repetition (what a de-duplicating collection would see)
+    for _ in range(ctx.n(60, 600)):
+        n = rng.randint(2, 6)
+        keys = ['#EXT-X-SESSION-KEY:METHOD=%s,URI="%s",KEYFORMAT="%s"' % (rng.choice(["AES-128", "SAMPLE-AES"]), rng.choice("abc"), f) for f in rng.sample(fmts, n)]
+        sd = ['#EXT-X-SESSION-DATA:DATA-ID="d%d",VALUE="v"' % i for i in range(rng.randint(0, 4))]
+        med = ['#EXT-X-MEDIA:TYPE=AUDIO,GROUP-ID="g%d",NAME="n"' % i for i in range(rng.randint(0, 4))]
+        var = ['#EXT-X-STREAM-INF:BANDWIDTH=%d\nv%d.m3u8' % (i + 1, i) for i in range(rng.randint(1, 4))]
+        unk = ["#EXT-X-FOO:%d" % i for i in range(rng.randint(0, 3))]
+        items = keys + sd + med + var + unk
+        for _ in range(rng.randint(1, 3)):
+            pool = rng.choice([keys, keys, med or keys, var, unk or keys])
+            items.insert(rng.randint(0, len(items)), rng.choice(pool))
+        if rng.random() < 0.5:
+            rng.shuffle(items)
+        texts.append(("rt_master", "#EXTM3U\n" + "\n".join(items) + "\n"))
+    for _ in range(ctx.n(60, 600)):
+        t = G.gen_media(rng, key_weight=0.5, features=ctx.features)[0] if rng.random() < 0.5 else G.gen_master(rng, features=ctx.features)[0]
+        ls = t.split("\n")
+        tags = [i for i, l in enumerate(ls) if l.startswith("#EXT-X-") and not l.startswith("#EXT-X-STREAM-INF")]
+        for _ in range(rng.randint(1, 3)):
+            if tags:
+                i = rng.choice(tags)
+                ls.insert(rng.randint(1, len(ls) - 1), ls[i])
+        t2 = "\n".join(ls)
+        texts.append(("rt_media" if "#EXTINF" in t else "rt_master", t2))
     return texts
 
 
@@ -2644,7 +2807,7 @@ PROPS["C18"] = {
     "build": c18_build, "gate": {"status", "obs", "T", "R", "V"}, "oracle": c18_oracle,
     "nontrivial": lambda c, a: a.startswith("ok"),
     "rule": "every variant of every enumerated type (67 in-stream ids, 7 versions, ...), boundary and random 64-bit integers through Channels / Resolution / ByteRange, random key-format-version lists (1-9 items), 128-bit IVs in both hex cases, codec lists, client attribute values of the three kinds, float literals and random / structured binary32 bit patterns on both float wrappers (also run through the model's float emulation), durations below 10^6 s with nanosecond precision, seeds and generated instances of every composite tag; plus a sweep of binary32 patterns executed inside the harness (quick: 256 strata x 2^16 per wrapper; thorough: all 2^32 per wrapper): accept iff finite (and sign bit clear), to_string -> parse gives the same bits; non-trivial = accepted value",
-    "explanation": "theorems: encryptionMethod_rt, hdcpLevel_rt, mediaType_rt, playlistType_rt, protocolVersion_rt, inStreamId_rt (all 67, decide +kernel over the table regenerated from the source), channels_rt, resolution_rt, byteRange_rt, codecs_rt, hexDecode_encode / natToBytes_spec / hexEncode_utf8Len / value_hex_rt, keyFormat_rt, closedCaptions_rt, keyFormatVersions_rt, float_accepts_finite; FL1/FL2 are the named IEEE-754 hypotheses; not yet proved in Lean: InitializationVector, Value::String/Float and the attribute-list tags (C03/C04 carry their tag-level statements) - for those the check relies on the correspondence run and the implementation oracle R:= (parse(to_string(v)) has the same observation as v)",
+    "explanation": "theorems: encryptionMethod_rt, hdcpLevel_rt, mediaType_rt, playlistType_rt, protocolVersion_rt, inStreamId_rt (all 67, decide +kernel over the table regenerated from the source), channels_rt, resolution_rt, byteRange_rt, codecs_rt, hexDecode_encode / natToBytes_spec / hexEncode_utf8Len / value_hex_rt, keyFormat_rt, closedCaptions_rt, keyFormatVersions_rt, float_accepts_finite; Props/C18Tags.lean: every tag type (EXTINF, BYTERANGE, KEY, MAP, PROGRAM-DATE-TIME, DATERANGE with its client attributes, MEDIA, both STREAM-INF kinds, SESSION-DATA, SESSION-KEY, START, the one-value tags) parses back from its own text on its well-formedness domain, and every parsed value is in that domain; FL1/FL2/FL3 are the named IEEE-754 hypotheses (float printing reading back), checked by execution incl. the 2^32 sweep; every case also carries the implementation oracle R:= (parse(to_string(v)) has the same observation as v), for parsed values and for values built through the public builders",
     "extra_coverage": lambda ctx: {"f32_sweep": getattr(ctx, "sweep", {})},
     "assumptions": ["FL1 (shortest-digit printing of binary32 round-trips) and FL2 (durations < 10^6 s through f64) are validated by execution, not proved"],
 }
@@ -3496,9 +3659,61 @@ def c03_fixmaps(obs):
     return obs_text(root)
 
 
+C03_HEADS = {"none": "", "ifo": "#EXT-X-I-FRAMES-ONLY\n", "ind": "#EXT-X-INDEPENDENT-SEGMENTS\n", "vod": "#EXT-X-PLAYLIST-TYPE:VOD\n", "ms": "#EXT-X-MEDIA-SEQUENCE:5\n",
+             "ds": "#EXT-X-DISCONTINUITY-SEQUENCE:2\n", "start": "#EXT-X-START:TIME-OFFSET=1.5\n"}
+C03_HEADS["all"] = "".join(C03_HEADS.values())
+_IV = "0x000000000000000000000000000000"
+C03_KINDS = {      # two values of each kind of segment tag (key lines first: a key behind the map is the recorded K2)
+    "key": ('#EXT-X-KEY:METHOD=AES-128,URI="k"\n', '#EXT-X-KEY:METHOD=AES-128,URI="l"\n'),
+    "key-iv": ('#EXT-X-KEY:METHOD=AES-128,URI="k",IV=%s01\n' % _IV, '#EXT-X-KEY:METHOD=AES-128,URI="k",IV=%s02\n' % _IV),
+    "key-format": ('#EXT-X-KEY:METHOD=SAMPLE-AES,URI="k",KEYFORMAT="f"\n', '#EXT-X-KEY:METHOD=SAMPLE-AES,URI="k",KEYFORMAT="g"\n'),
+    "map": ('#EXT-X-MAP:URI="i"\n', '#EXT-X-MAP:URI="j"\n'),
+    "map-range": ('#EXT-X-MAP:URI="i",BYTERANGE="5@0"\n', '#EXT-X-MAP:URI="i",BYTERANGE="5@5"\n'),
+    "daterange": ('#EXT-X-DATERANGE:ID="a",START-DATE="2010-02-19T14:54:23.031+08:00"\n', '#EXT-X-DATERANGE:ID="b",START-DATE="2010-02-19T14:54:23.031+08:00"\n'),
+    "pdt": ("#EXT-X-PROGRAM-DATE-TIME:2010-02-19T14:54:23.031+08:00\n", "#EXT-X-PROGRAM-DATE-TIME:2010-02-19T14:54:24.031+08:00\n"),
+    "range": ("#EXT-X-BYTERANGE:10@0\n", "#EXT-X-BYTERANGE:10@10\n"),
+    "disc": ("#EXT-X-DISCONTINUITY\n", "#EXT-X-DISCONTINUITY\n"),
+    "inf": ("#EXTINF:1,t\n", "#EXTINF:1.5,\n"),
+}
+_C03_ORDER = list(C03_KINDS)
+
+
+def c03_consecutive():
+    """what the writer carries from one segment to the next: the same tag (same value, other value, with a gap) on consecutive
+    segments, for every kind of segment tag, alone and in pairs of kinds, under every playlist-level tag"""
+    def text(head, segs):
+        out = "#EXTM3U\n#EXT-X-TARGETDURATION:10\n" + head
+        for i, tags in enumerate(segs):
+            inf = "#EXTINF:1,\n"
+            body = ""
+            for k in _C03_ORDER:
+                if k in tags:
+                    if k == "inf":
+                        inf = C03_KINDS[k][tags[k]]
+                    else:
+                        body += C03_KINDS[k][tags[k]]
+            out += body + inf + ("v.ts" if any("range" in t for t in segs) else "s%d.ts" % i) + "\n"
+        return out + ("#EXT-X-ENDLIST\n" if "VOD" in head else "")
+    cases = []
+    pats = [(0, 0), (0, 1), (0, None, 0), (None, 0, 0), (0, 0, 0), (0, 1, 0)]
+    for hn, head in C03_HEADS.items():
+        for k in C03_KINDS:
+            for pat in pats:
+                if k == "range" and pat in ((0, None, 0),):
+                    pass
+                segs = [({} if v is None else {k: v}) for v in pat]
+                cases.append(mk("rt_media", text(head, segs), group="consecutive", meta={"seq": True}))
+    for hn in ("none", "ifo", "ind"):
+        for k1, k2 in itertools.combinations(C03_KINDS, 2):
+            for (a1, b1), (a2, b2) in (((0, 0), (0, 0)), ((0, 0), (0, 1)), ((0, 1), (0, 0))):
+                segs = [{k1: a1, k2: a2}, {k1: b1, k2: b2}]
+                cases.append(mk("rt_media", text(C03_HEADS[hn], segs), group="consecutive-pairs", meta={"seq": True}))
+    return cases
+
+
 def c03_build(ctx):
     rng = ctx.rng
-    cases = []
+    cases = c03_consecutive()
     for t in corpus_texts():
         if "#EXTINF" in t or "TARGETDURATION" in t:
             cases.append(mk("rt_media", t, group="corpus"))
